@@ -1826,6 +1826,26 @@ class Interp:
     def ev_mcall(self, e, st):
         m = e["m"]
         recv = e["recv"]
+        r0_ = rx.peel(recv)
+        if isinstance(r0_, dict) and r0_.get("k") == "field" and not e.get("_placed"):
+            b0_ = rx.peel(r0_["e"])
+            if isinstance(b0_, dict) and b0_.get("k") == "path" and len(b0_["segs"]) == 1 and isinstance(st.env.get(b0_["segs"][0]), dict) and st.env[b0_["segs"][0]].get("v") == "struct" and r0_["name"] in st.env[b0_["segs"][0]]["fields"]:
+                # a method called on a field of a record value held in a local (`call.template.push_str(..)`, `self.args.extend(..)`
+                # inside a method of the record): the field is a place — evaluated as a local of its own, and what the call left
+                # there is stored back into the record
+                var_, fld_ = b0_["segs"][0], r0_["name"]
+                self._nplace = getattr(self, "_nplace", 0) + 1
+                tmp_ = "§place%d" % self._nplace
+                st.env[tmp_] = st.env[var_]["fields"][fld_]
+                out_ = []
+                for s1, v1 in self.ev_mcall(dict(e, recv={"k": "path", "l": e.get("l"), "segs": [tmp_], "gen": [[]], "qself": None}, _placed=True), st):
+                    nv_ = s1.env.pop(tmp_, None)
+                    cur_ = s1.env.get(var_)
+                    if nv_ is not None and isinstance(cur_, dict) and cur_.get("v") == "struct":
+                        s1.env[var_] = dict(cur_, fields=dict(cur_["fields"], **{fld_: nv_}))
+                    out_.append((s1, v1))
+                st.env.pop(tmp_, None)
+                return out_
         if m in ("map_err", "inspect_err", "inspect") and len(e["args"]) == 1 and e["args"][0].get("k") == "closure" and len(e["args"][0]["params"]) == 1:
             # RESULT.inspect(..) / .inspect_err(..) hand the result on; so does `.map_err(|e| { log::warn!(..); e })` — a closure
             # that returns the error it was given.  The result of a call stays the event it is (who was called, with what).
@@ -1873,7 +1893,7 @@ class Interp:
                         wrapped = True
                     else:
                         wrapped = False
-                    accp = {"k": "path", "l": l_, "segs": [acc], "qself": None}
+                    accp = {"k": "path", "l": l_, "segs": [acc], "gen": [[]], "qself": None}
                     if t0.get("k") == "path" and t0.get("segs") == [acc] and (wrapped or m == "fold"):
                         body_stmts = stmts[:-1]  # the accumulator is handed on as it is
                     else:
@@ -2421,10 +2441,22 @@ class Interp:
             for (n, ty), v in zip([p_ for p_ in fn.params if p_[0] != "self"], argv):
                 if n:
                     s1.env[n] = v
+            # `&mut self` on a record value held in a local of the caller: the record the method leaves behind is the caller's
+            # variable afterwards (a receiver that is no plain local cannot be written back: not understood)
+            wb_ = None
+            if isinstance(self_val, dict) and self_val.get("v") == "struct" and str(fn.node.get("self") or "").replace(" ", "").startswith("&mut"):
+                rr_ = rx.peel(callnode["recv"]) if isinstance(callnode, dict) and callnode.get("k") == "mcall" else None
+                if isinstance(rr_, dict) and rr_.get("k") == "path" and len(rr_["segs"]) == 1 and rr_["segs"][0] in saved_env:
+                    wb_ = rr_["segs"][0]
+                else:
+                    s1.unknown.append("&mut self method %s on a record value that is not a plain local" % key)
             out = []
             for s2, v in self.exec_block(fn.body["stmts"], s1):
                 rv = s2.ret if s2.ret is not None else v
+                new_self = s2.env.get("self")
                 s2.env = dict(saved_env)
+                if wb_ is not None and isinstance(new_self, dict):
+                    s2.env[wb_] = new_self
                 s2.ret = saved_ret
                 out.append((s2, rv))
             return out
@@ -3097,6 +3129,14 @@ def tainted(h, depth=0):
         return []
     if k in ("call", "mcall", "cast", "expr", "unwrap", "proj", "debug", "matched", "some-of"):
         out = []
+        if k == "call" and TAINT_CARRIERS:
+            # a value of a text-carrying type of the crate that the interpreter holds only as "the result of this call" (its
+            # constructor / default, not looked into, or changed afterwards by methods that were not followed): whatever text it
+            # carries when it is rendered is unknown — treated as user text (fail closed)
+            cal_ = str(h.get("callee") or "")
+            ty_c = (h.get("ty") or "").split("<")[0] or (cal_.split("::")[-2] if cal_.count("::") >= 1 else "")
+            if ty_c in TAINT_CARRIERS and cal_.split("::")[-1] in ("default", "new", "from", "try_from", "with_capacity", "clone", "into"):
+                out.append(canon(h))
         for key in ("args", "operands", "key"):
             for a in h.get(key, []) or []:
                 out += tainted(a, depth + 1)
